@@ -35,10 +35,8 @@ FP = ('Python/dawgie/pl/dag.py',
        'Node.trim', 'Node.iter', 'Node.locate'])
 FP2 = ('Python/dawgie/util/refs.py',
        ['algref2svref', 'as_vref', 'svref2vref', 'vref_as_name'])
-FP_EXPECT = {
-    # normalised-ast fingerprints of the functions the model mirrors; a change
-    # escalates the run to thorough depth (DESIGN 5.2)
-}
+# expected fingerprints live in corpus/C09/fingerprints.json; a change escalates
+# the run to thorough depth (DESIGN 5.2)
 
 
 # ---------------------------------------------------------------------------
@@ -140,6 +138,33 @@ def malformed():
         _alg('a0', svs=()), _alg('a1', [_r('alg', 'p0', 'task', 'a0')]),
         _alg('a2')], [], []))))
     return c
+
+
+def exhaustive():
+    '''every dependency shape over 4 algorithms (algorithm i may depend on any
+    subset of the earlier ones: 64 shapes), reference levels rotating, with and
+    without a feedback reference from the first to the last algorithm.'''
+    out = []
+    lv = ['alg', 'sv', 'v']
+    for mask in range(64):
+        bits = [(mask >> k) & 1 for k in range(6)]
+        pairs = [(1, 0), (2, 0), (2, 1), (3, 0), (3, 1), (3, 2)]
+        for fb in (False, True):
+            algs = []
+            for i in range(4):
+                deps = []
+                for k, (c, p) in enumerate(pairs):
+                    if c == i and bits[k]:
+                        L = lv[(k + mask) % 3]
+                        deps.append(_r(L, 'p%d' % (p % 2), 'task', 'a%d' % p,
+                                       's1' if L != 'alg' else None,
+                                       'v0' if L == 'v' else None))
+                algs.append(_alg('a%d' % i, deps, svs=TWO))
+            if fb:
+                algs[0]['feedback'].append(_r('v', 'p1', 'task', 'a3', 's0', 'v1'))
+            out.append(('ex%d%s' % (mask, 'f' if fb else ''), _eng(
+                ('p0', [algs[0], algs[2]], [], []), ('p1', [algs[1], algs[3]], [], [])), True))
+    return out
 
 
 def gen_cases(ctx, n):
@@ -462,13 +487,14 @@ def shrink(desc, still_fails, budget=40):
 # the check
 # ---------------------------------------------------------------------------
 
-def run_cases(ctx, cases, real_dot=2):
+def run_cases(ctx, cases, real_dot=2, model=True):
     '''implementation + oracle + model + diff on the given cases; returns
     (#violations reported, first correspondence mismatch or None)'''
     descs = [d for _, d, _ in cases]
     impl = ctx.harness('drive_dag.py', {'cases': descs, 'real_dot': real_dot})['cases']
     nviol = 0
     keys = []
+    hits = {}
     hist = {'levels>=2': 0, 'shared': 0, 'diamond': 0, 'feedback': 0, 'kinds>=2': 0}
     for (cid, desc, wf), o in zip(cases, impl):
         if o['selfcheck']:
@@ -491,20 +517,33 @@ def run_cases(ctx, cases, real_dot=2):
             hist[k] += bool(b)
         if (f['diamond'] or f['shared']) and f['levels'] >= 2 and f['feedback']:
             keys.append(('engine', desc['packages']))
-        for kind, fields, text in oracle(desc, o)[:1]:
-            def fails(d2, kind=kind):
-                o2 = ctx.harness('drive_dag.py', {'cases': [d2]})['cases'][0]
-                return o2.get('exc') is None and any(
-                    k == kind for k, _, _ in oracle(d2, o2))
-            small = shrink(desc, fails)
-            o2 = ctx.harness('drive_dag.py', {'cases': [small]})['cases'][0]
-            hits = [h for h in oracle(small, o2) if h[0] == kind] or [(kind, fields, text)]
-            ctx.violation(hits[0][0], hits[0][1],
-                          'dag.Construct: %s (engine %s)' % (hits[0][2], cid),
-                          {'source': 'oracle', 'case': cid, 'engine': small,
-                           'original_engine': desc,
-                           'theorem': 'C09_%s' % hits[0][0]})
-            nviol += 1
+        for kind, fields, text in oracle(desc, o):
+            sig = kind + json.dumps(fields, sort_keys=True)
+            size = len(json.dumps(desc))
+            if sig not in hits or size < hits[sig][0]:
+                hits[sig] = (size, cid, desc, kind, fields, text)
+    # one report per distinct (kind, fields): the smallest failing engine, shrunk
+    for sig in sorted(hits)[:4]:
+        _, cid, desc, kind, fields, text = hits[sig]
+
+        def fails(d2, kind=kind, fields=fields):
+            o2 = ctx.harness('drive_dag.py', {'cases': [d2]})['cases'][0]
+            return o2.get('exc') is None and not o2['selfcheck'] and any(
+                k == kind and f == fields for k, f, _ in oracle(d2, o2))
+        small = shrink(desc, fails, budget=20)
+        o2 = ctx.harness('drive_dag.py', {'cases': [small]})['cases'][0]
+        again = [h for h in oracle(small, o2) if h[0] == kind and h[1] == fields]
+        if again:
+            text = again[0][2]
+        else:
+            small = desc
+        ctx.violation(kind, fields,
+                      'dag.Construct: %s (engine %s)' % (text, cid),
+                      {'source': 'oracle', 'case': cid, 'engine': small,
+                       'original_engine': desc, 'theorem': 'C09_%s' % kind})
+        nviol += 1
+    if not model:
+        return nviol, None, impl
     # ---- model side ------------------------------------------------------
     # one expression per case: observe ... and, for every engine with a
     # topological rank, the theorems' hypothesis wf_engineb with that witness
@@ -572,9 +611,12 @@ def run(ctx):
         'names contain no "." (compliance rule); package names, (package, '
         'algorithm) names, state-vector names within an algorithm and value '
         'names within a state vector are unique',
-        'every reference names an existing algorithm / state vector / value '
-        '(compliance rule 11): an unresolved feedback reference raises KeyError '
-        'in Construct._feedback and is outside the model',
+        'every reference names an existing algorithm / state vector / value and '
+        'expands to at least one value (compliance rules 05, 09, 11: no empty '
+        'state vector, no algorithm without state vectors, references resolve); '
+        'an unresolved feedback reference raises KeyError in Construct._feedback '
+        'and is outside the model; an algorithm whose inputs all expand to nothing '
+        'gets no node in the trees (modelled, outside the theorems)',
         'acyclic at algorithm level (rank witness); on a cycle below a root '
         'Construct._ancestry does not terminate (stated, not modelled)')
     fp = dict(core.fingerprint(*FP))
@@ -588,6 +630,12 @@ def run(ctx):
     # ---- replay ------------------------------------------------------------
     if ctx.replay:
         rp = json.load(open(ctx.replay))
+        if 'engine' not in rp:      # a broken proof: nothing to replay but the build
+            r = ctx.coq_props()
+            if not r['ok']:
+                ctx.broken('theorem/file %s' % r['failing'], r['log'],
+                           {'source': 'proof', 'theorem': r['failing']})
+            return
         cases = [('replay', rp['engine'], True)]
         r = ctx.coq_props()
         nv, mm, _ = run_cases(ctx, cases, real_dot=1)
@@ -599,13 +647,17 @@ def run(ctx):
     # ---- proofs --------------------------------------------------------------
     r = ctx.coq_props()
     ctx.log('proofs: ok=%s' % r['ok'])
-    n = 1500 if deep else 240
+    # thorough: 1500 engines; quick: 240, or 720 when a fingerprint changed
+    n = 1500 if not ctx.quick else (720 if escalate else 240)
     cases = gen_cases(ctx, n)
+    if deep:
+        cases += exhaustive()
     for c in cases[:3]:
         ctx.sample({'case': c[0], 'engine': c[1]}, limit=3)
     nviol, mismatch, impl = run_cases(ctx, cases)
     ctx.note('cases', {'directed': len(directed()), 'malformed': len(malformed()),
-                       'random': n - len(directed()) - len(malformed())})
+                       'random': n - len(directed()) - len(malformed()),
+                       'exhaustive_4_algorithms': len(exhaustive()) if deep else 0})
     ctx.note('not_covered', 'cyclic engines (non-termination of _ancestry), '
              'unresolved feedback references (KeyError), duplicate names, the '
              'SVG bytes, Construct.__getitem__ beyond 3 keys per engine')
@@ -616,12 +668,11 @@ def run(ctx):
         def fails(d2):
             _, mm, _ = run_cases(ctx, [('s', d2, True)], real_dot=0)
             return mm is not None
-        small = shrink(desc, fails, budget=25)
-        # search for a failing input around the disagreement before giving up
-        extra = gen_cases(ctx, 600)[len(cases):] if ctx.quick else []
-        nv2 = 0
-        if extra:
-            nv2, _, _ = run_cases(ctx, extra, real_dot=0)
+        small = shrink(desc, fails, budget=8)
+        # the property oracle on more seeds (implementation only) before
+        # answering "no failing input found"
+        extra = gen_cases(ctx, n + (600 if ctx.quick else 3000))[n:]
+        nv2, _, _ = run_cases(ctx, extra, real_dot=0, model=False)
         if not nv2:
             ctx.broken('correspondence Dag.observe vs dag.Construct (case %s)' % cid,
                        d, {'source': 'correspondence', 'case': cid,
@@ -629,14 +680,14 @@ def run(ctx):
                            'first_difference': d})
     if not r['ok'] and not nviol:
         extra = gen_cases(ctx, n + 600)[n:]
-        nv2, _, _ = run_cases(ctx, extra, real_dot=0)
+        nv2, _, _ = run_cases(ctx, extra, real_dot=0, model=False)
         if not nv2:
             ctx.broken('theorem/file %s' % r['failing'], r['log'],
                        {'source': 'proof', 'theorem': r['failing']})
 
 
 def _expected_fp():
-    p = os.path.join(core.VERIF, 'corpus', 'C09_fingerprints.json')
+    p = os.path.join(core.VERIF, 'corpus', 'C09', 'fingerprints.json')
     if os.path.exists(p):
         return json.load(open(p))
     return None
